@@ -196,6 +196,143 @@ CHECKS["C15"] = dict(
               "transition cover + random walks of the instance state machine; oracle-free monitors for the frozen / mirror clauses",
 )
 
+CHECKS["C17"] = dict(
+    category="model_checking",
+    text="Submission.tla models GetSCTs at goroutine level (one goroutine per (group, log), every mutex-protected block of "
+         "safeSubmissionState one action, nondeterministic latencies, hang outcomes, caller cancellation, the per-group and "
+         "top-level collectors); TLC checks AtMostOncePerLog, SuccessSound, FailureHonest, NeedsAccount exhaustively and "
+         "Terminates / SuccessComplete under weak fairness (the pre-repair variant of the model yields the counterexample "
+         "of the repaired defect). Distributor.tla gives the policy totals by lifetime and the eligibility of a log. "
+         "Binding: the real GetSCTs runs under testing/synctest virtual time with a scripted Submitter over every outcome x "
+         "latency assignment of three group layouts (with and without caller deadline) and every result is judged by the "
+         "property clauses; the H4 events emitted under the mutex are validated by TLC against SubmissionTrace.tla (each "
+         "event must be the specified effect on groupNeeds / results / cancellable requests, the returned verdict must be "
+         "sound and honest); 3078 policy / eligibility cases are replayed into ChromeCTPolicy / AppleCTPolicy.LogsByGroup "
+         "and Distributor.AddChain; concurrent submissions, weight changes, root and log-list refreshes run under -race.",
+    design="4/C17",
+    note="latencies from {0, 0.3, 1.5, 2.5, 10 s}; layouts Chrome-like N=2 / N=3 and Apple-like N=2; exhaustive TLC on the "
+         "N=2 layouts (hang + cancellation on the Apple layout); data-race freedom judged by the Go race detector.",
+    technique="TLA+ spec + TLC exhaustive safety and liveness; code->spec trace validation of mutex-held events; "
+              "property-level replay of enumerated latency/outcome scenarios under virtual time; race detector",
+)
+CHECKS["C16"] = dict(
+    category="model_checking",
+    text="Fetcher.tla (range generator, rendezvous channel, N fetch workers, short reads 1..asked, counted transient errors, "
+         "Stop/Cancel, continuous mode with a growing tree) and Scanner.tla (flatten, bounded channel, matcher workers, "
+         "cert/precert callbacks) are model-checked exhaustively by TLC: exactly-once accounting, nothing out of range, "
+         "completeness at termination, initial segment after Stop and when quiet in continuous mode, callbacks once per "
+         "selected entry and by type; termination and continuous progress under fairness. Complete TLC runs are replayed as "
+         "reply scripts into the real scanner.Fetcher.Run / Scanner.Scan (virtual time, -race) comparing the delivered batches; "
+         "traces of randomly configured real runs (and of the replayed ones) are validated against Fetcher.tla by TLC, which "
+         "infers which worker made which request; oracle-free monitors check every run (exactly once with the served bytes, "
+         "termination, callback kind).",
+    design="4/C16",
+    note="Model bounds: tree <= 4 (quick) / 5 (thorough) with growth, batch 1..3, 1..2 fetchers, <= 2 errors; scanner model tree <= 3/4, "
+         "2 matcher workers; real-code runs: tree <= 16, batch 1..5, 1..4 fetchers, 1..3 matchers. Logs returning 0 or more entries "
+         "than asked, BatchSize/ParallelFetch < 1 and nil matchers are outside the domain. Busy livelocks that make no request are "
+         "only seen as a test timeout. copier.go / migrillian reuse of the Fetcher is covered through C20.",
+    technique="TLA+ spec + TLC exhaustive safety and liveness; spec->code replay of simulated complete runs as reply scripts; "
+              "code->spec trace validation with silent-step inference; runtime monitors under testing/synctest + -race",
+)
+CHECKS["C09"] = dict(
+    category="model_checking",
+    text="TLSCodec.tla defines Enc/Dec of RFC 5246 section 4 over type descriptors (uintN incl. uint24, enums "
+         "size/maxval 1..8 bytes, opaque[n], <min..max> vectors of bytes/integers/structs, nested structs, selects). "
+         "TLC checks Dec(Enc(v)++r)=(v,r), Dec(b)=(v,r)=>Enc(v)++r=b and bound agreement on every enumerated "
+         "(type shape, value, mutated byte string) and exports each case; the Go harness builds every type with "
+         "reflect.StructOf and compares tls.Marshal/Unmarshal[WithParams] bytes, values, rest and accept/reject with "
+         "the model, monitors panics, allocation per decode and the re-encoding law, then runs seeded random types, "
+         "values and byte strings against a reference codec that the replay ties to the specification.",
+    design="4/C09",
+    note="Shapes: all pairs of 25 kinds (49 thorough), triples/nesting<=3/vectors of structs over a reduced list, "
+         "selects in 4 layouts x 6 arm kinds, vectors at 2^16/2^24; random types nesting<=3. Named clause "
+         "EnumBoundIsWidth (enum bounded by width, not maxval). Out of grammar: empty structs, arrays of non-bytes, "
+         "maxlen:0. Allocation bound (64+2*sizeof(vector element))*len+8KiB. Out-of-bounds reads = Go panics.",
+    technique="TLA+ spec + TLC exhaustive case enumeration with model-level laws; spec->code replay of every case on "
+              "run-time generated Go types; differential random testing against a spec-validated reference codec",
+)
+CHECKS["C04"] = dict(
+    category="model_checking",
+    text="RFC6962Wire.tla writes MerkleTreeLeaf, SCT, the SCT/STH signature inputs, DigitallySigned, SCT lists and the "
+         "extra-data chain structures from RFC 6962 section 3 / RFC 5246 4.7 on top of TLSCodec.tla. TLC checks round "
+         "trip, no-trailing-data and bijection laws and exports every boundary case with expected encodings and, for "
+         "each mutated encoding, the expected decode / complete-parse verdict; the harness compares tls.Marshal/"
+         "Unmarshal on the ct types, SerializeSCTSignatureInput, SerializeSTHSignatureInput, LeafHashForLeaf, "
+         "ExtraDataForChain, the x509util SCT-list helpers, RawLogEntryFromLeaf/LogEntryFromLeaf, DigitallySigned "
+         "base64/JSON and the add-chain/get-sth messages byte for byte, plus real certificates through the entry parsers.",
+    design="4/C04",
+    note="Trusted base: the spec's reading of the RFC structs (second independent encoder in harness/ref used for the "
+         "real-certificate run). Boundary value sets, not all values. Named deviation JSONEntry (type 32768: raw codec "
+         "accepts, signature input and entry parsers refuse). Unasserted: entry parsers on leaves whose version != v1.",
+    technique="TLA+ spec + TLC case enumeration with model-level laws; spec->code replay with the model's bytes and "
+              "verdicts as expected values; independent-encoder differential run with real X.509 material",
+)
+CHECKS["C10"] = dict(
+    category="model_checking",
+    text="Asn1Lax.tla is a decision model of ASN.1 decoding outcomes: TLC enumerates every case [Go type shape (38) x container stack "
+         "(struct/SEQUENCE OF/SET OF/EXPLICIT/OPTIONAL, depth<=2) x value variant x one of 32 defects x path x mode] and checks "
+         "the laws LaxSuperset, LaxOnlyDocumented, LaxPropagates, StrictEqUpstream (modulo the DeliberateDiff constant), "
+         "RoundTrip, RawContentKeeps on the verdict table; every case is realized as bytes (own DER builder) and reflect-built "
+         "Go types and executed on the fork (strict, lax) and on encoding/asn1, comparing verdict, decoded value, remainder "
+         "and re-marshalled bytes; oracle-free laws (strict=>lax, strict==upstream unless a listed difference explains it, "
+         "no panic, bounded allocation) run on millions of seeded byte-level mutations.",
+    design="4/C10",
+    note="'All byte strings / all types' is decided on the structured family plus its mutations; DeliberateDiff (base-128 "
+         "leading 0x80 in OID arcs and high tags accepted, GeneralizedTime fractions rejected, SET OF not sorted on Marshal) is "
+         "pinned to the installed toolchain's encoding/asn1; a `lax` struct-field tag (ignored by the code) is recorded, not asserted.",
+    technique="TLA+ case-analysis spec + TLC exhaustive enumeration; spec->code replay of every case with upstream as "
+              "second implementation; metamorphic differential testing on byte mutations; allocation metering",
+)
+CHECKS["C18"] = dict(
+    category="model_checking",
+    text="Temporal.tla holds the window predicate and the three components' decision structures; TLC checks over every shard list "
+         "of length <=3 on instants 0..7 (538084 lists, present/absent bounds) that server window, log-list filter and shard index all "
+         "equal start<=t<limit, that exactly one shard is chosen inside the overall span and none outside, that routing equals "
+         "admission and that the constructor refuses exactly the ill-formed lists; every case is replayed into ctfe.ValidateChain, a "
+         "configured ctfe.Instance, client.NewTemporalLogClient/IndexByDate and loglist3 TemporallyCompatible/Compatible at "
+         "hour/second/nanosecond distance from each bound.",
+    design="4/C18",
+    note="instants abstracted to their order (strictly monotone materializations, whole-second anchor because X.509 times have second "
+         "resolution); log-list intervals have both ends or are absent; empty list / empty interval refusals recorded as named clauses.",
+    technique="TLA+ case-analysis spec + TLC exhaustive enumeration of the bounded domain; spec->code replay of every case into three "
+              "real components with sub-second boundary materializations",
+)
+CHECKS["C02"] = dict(
+    category="model_checking",
+    text="ChainAdmission.tla states admission from the property text (links, anchoring in the trusted pool, order, leaf filters, poison "
+         "kind vs endpoint, allowed validated paths) next to the code-shaped path search, and TLC proves them equal on every state; "
+         "states are 28 base chains x every single (thorough: double) perturbation x 7 trusted pools over a hierarchy with two roots, "
+         "re-issued/renamed/cross-signed roots, cross-signed and pre-issuer intermediates, forged twins and unparsable certificates, with "
+         "all 2160 option combinations x 2 endpoints evaluated per state; every state is replayed into ctfe.ValidateChain/IsPrecertificate "
+         "and add-chain/add-pre-chain of configured instances comparing verdict and returned path certificate by certificate.",
+    design="4/C02",
+    note="signature soundness; hierarchy depth <=5; name constraints/path length/policies are disabled by the code and not modelled; "
+         "through HTTP 'now' is only before/after every NotAfter (an instance reads the system clock), boundary 'now' only on "
+         "ValidateChain; full option table on two chains per leaf in quick; named clauses NoRepeat, TrustedLeafAlone, TrustedLastEndsPath.",
+    technique="TLA+ case-analysis spec + TLC exhaustive enumeration with model-level equivalence of text-shaped and code-shaped "
+              "predicates; spec->code replay with std-crypto-generated PKI (mixed algorithms) into the Go API and the HTTP endpoints",
+)
+
+CHECKS["C12"] = dict(
+    category="model_checking",
+    text="LogClient.tla (adversarial server answering every request of the nine client.LogClient methods with [status, body class]; "
+         "ideal RFC 6962 client with history variable Returned; invariants OnlyVerifiedSTH, OnlyVerifiedSCT, ErrorsCarryResponse, "
+         "NoPartialResults) is model-checked exhaustively by TLC over methods x statuses {200,204,301,400,404,429,500} x body classes, "
+         "repeated submissions and sequences of calls; every completed call, two-call sequences and the entry-decoder table are "
+         "exported and replayed into real client.LogClient instances (ECDSA P-256 and RSA 2048 keys, DER and PEM) behind a scripted "
+         "RoundTripper that renders each class with real keys, chains (incl. precertificates and pre-issuers) and independent encoders; "
+         "every returned STH/SCT is re-verified with std crypto against the submitted chain, errors are checked for status and body, "
+         "the entry decoder is run on the spec's classes and on seeded mutations with byte-exact re-encoding.",
+    design="4/C12",
+    note="Signature soundness assumed (tokens in the spec, real keys in the harness). Single-deviation class catalogue plus a few double "
+         "ones. Classes on which the property is silent are only held to 'what is returned verifies': JSON followed by junk, missing "
+         "optional fields / null on unsigned endpoints, malformed leaves via GetRawEntries, an SCT answer without id, stale fields kept "
+         "across retried submissions, whether GetEntries decode errors carry the HTTP response. 301 is answered without Location. Retry "
+         "pacing is C13's. TemporalLogClient routing is not exercised.",
+    technique="TLA+ spec + TLC exhaustive model checking; case/behaviour export (-workers 1, cover view); spec->code replay with an "
+              "independent verification oracle (harness/ref + std crypto); seeded mutation of decoder inputs with re-encoding oracle",
+)
+
 NOT_YET = {}
 
 def main():
